@@ -70,6 +70,16 @@ def case(ctx, case):
     dk = dict(case["decode"])
     decode_type = dk.pop("decode_type")
     sig = dict(policy=kind, env=name, decode=decode_type)
+    if case.get("warm"):
+        # history: the same policy object has just decoded ANOTHER batch of the same shape with the same settings (the previous
+        # loader batch): nothing of that call may survive into the observed one
+        with torch.no_grad():
+            try:
+                pol(env.reset(env.generator(batch_size=[B])), env, phase="train", decode_type=decode_type, return_actions=True, **dk)
+                ctx.count("c11_warmup_calls")
+                sig["history"] = True
+            except Exception:
+                pass
     multistart = decode_type.startswith("multistart")
     mm = pinned_matnet_randomness(pol) if kind == "matnet" else contextlib.nullcontext()
     with mm, torch.no_grad():
